@@ -101,6 +101,21 @@ def check(run):
     ok = len(ex) == 1 and [u(a) for a in ex[0].args] == ['pysrc', 'filename', 'globs']
     okp, why = flow.is_passthrough(f, 'pysrc')
     run.ob('F/script-executed-unmodified', 'find_ffi_in_python_script', '_execfile(pysrc, filename, globs)', ok and okp, m.where(f), str(why))
+    # the script runs as `python script.py` would run it: its own directory is the FIRST entry of sys.path while it executes (a sibling
+    # helper module wins over a same-named module elsewhere -- the working directory of `python -m cffi.gen_src` comes first otherwise,
+    # and the two ways of invoking the tool build different FFIs), and the path is restored afterwards
+    ff = m.find('find_ffi_in_python_script')
+    ins = [c for c in ast.walk(ff) if isinstance(c, ast.Call) and u(c.func) in ('sys.path.insert', 'sys.path.append', 'sys.path.extend') or
+           (isinstance(c, ast.AugAssign) and u(c.target) == 'sys.path')]
+    local = {u(st.targets[0]): u(st.value) for st in ast.walk(ff) if isinstance(st, ast.Assign) and len(st.targets) == 1 and isinstance(st.targets[0], ast.Name)}
+    first = [c for c in ins if isinstance(c, ast.Call) and u(c.func) == 'sys.path.insert' and len(c.args) == 2 and u(c.args[0]) == '0' and
+             'dirname(filename)' in local.get(u(c.args[1]), u(c.args[1]))]
+    exs = [c for c in ast.walk(ff) if isinstance(c, ast.Call) and u(c.func) == '_execfile']
+    okp = len(ins) == 1 and len(first) == 1 and bool(exs) and first[0].lineno < exs[0].lineno
+    run.ob('F/script-directory-first-on-the-module-path', 'find_ffi_in_python_script', '; '.join(u(c) for c in ins) or 'sys.path is not prepared', okp, m.where(ff),
+           'the directory of the script must be sys.path[0] while the script runs (as with `python script.py`); otherwise an earlier entry -- the working directory under `python -m` -- can supply a different helper module')
+    restores = [st for st in ast.walk(ff) if isinstance(st, ast.Try) and any('sys.path' in u(x) and 'old_path' in u(x) for x in st.finalbody)]
+    run.ob('F/module-path-restored-after-the-script', 'find_ffi_in_python_script', 'finally: sys.path[:] = old_path', len(restores) == 1 and any(c in list(ast.walk(restores[0])) for c in exs), m.where(ff))
     # run(): dispatch
     f = m.find('run')
     calls = {u(c.func): c for c in ast.walk(f) if isinstance(c, ast.Call) and u(c.func) in ('exec_python', 'read_sources')}
